@@ -170,6 +170,11 @@ func runQuorum(t *testing.T, run *vt.Run, c vt.CaseID, q qcase) {
 	cfg := ring.DoUntilQuorumConfig{MinimizeRequests: q.Minimize, HedgingDelay: time.Duration(q.HedgeSeconds) * time.Second, IncludeReplicaCount: q.ReplicaCount}
 	if q.TerminalPred {
 		cfg.IsTerminalError = func(err error) bool { var te termErr; return errors.As(err, &te) }
+		if q.CanceledErrs {
+			// the negative style: "whatever is not an ordinary failure is terminal" - true for a nil error as
+			// well, which the implementation has no business asking about
+			cfg.IsTerminalError = func(err error) bool { var fe failErr; return !errors.As(err, &fe) }
+		}
 	}
 	var sorterOut []string
 	switch q.Sorter {
